@@ -39,6 +39,7 @@ type Profile struct {
 	PhaseLen    int
 	UnknownPropPct int
 	FeeMultiplier  int64
+	QueryHeavy     bool // reads are mostly /store/<name>/key queries over interesting keys and heights
 }
 
 func DefaultProfile() Profile {
@@ -422,6 +423,10 @@ func (w *World) RandomRead() {
 	if qh < 0 {
 		qh = 0
 	}
+	if w.P.QueryHeavy && w.R.Chance(85) {
+		w.storeKeyQuery(qh)
+		return
+	}
 	switch w.R.Intn(9) {
 	case 0:
 		e.Info()
@@ -453,6 +458,52 @@ func (w *World) RandomRead() {
 			e.Query(&QuerySpec{Path: "/app/simulate", Data: hx(bz)})
 		}
 	}
+}
+
+// storeKeyQuery asks for one key of one store: present, deleted, never written, prefix-adjacent, pending.
+func (w *World) storeKeyQuery(qh int64) {
+	e := w.Env
+	raw := e.Last().Raw
+	stores := []string{"auth", "pos", "params", "main", "pos", "auth", "nostore", "transient_params"}
+	st := stores[w.R.Intn(len(stores))]
+	var key []byte
+	var keys []string
+	for k := range raw[st] {
+		keys = append(keys, k)
+	}
+	sort.Strings(keys)
+	switch w.R.Intn(8) {
+	case 0:
+		key = []byte("never-written-key")
+		if w.R.Chance(20) {
+			key = []byte{0xff, 0xff}
+		}
+	case 1:
+		if len(keys) > 0 {
+			key = append([]byte(keys[w.R.Intn(len(keys))]), 0x00) // prefix-adjacent
+		}
+	case 2:
+		if len(keys) > 0 {
+			k := keys[w.R.Intn(len(keys))]
+			if len(k) > 1 {
+				key = []byte(k[:len(k)-1])
+			}
+		}
+	case 3:
+		// keys that come and go: award / burn queue entries, validator records of every actor
+		a := w.All[w.R.Intn(len(w.All))]
+		key = append([]byte{[]byte{0x51, 0x52, 0x21, 0x11}[w.R.Intn(4)]}, a.Addr...)
+		st = "pos"
+	default:
+		if len(keys) > 0 {
+			key = []byte(keys[w.R.Intn(len(keys))])
+		}
+	}
+	if len(key) == 0 {
+		key = []byte{0x01}
+	}
+	prove := w.R.Bool()
+	e.Query(&QuerySpec{Path: "/store/" + st + "/key", Data: hx(key), Height: qh, Prove: prove})
 }
 
 // Block runs one full block. Returns false when the history is over.
